@@ -14,6 +14,10 @@ open MW.Lemmas.PendHist.NotifySpec
 theorem exNotifyResV : NotifyRes [exB2] [exB2x] (exV.sp.pend ++ backOf exE.env [exB2]) :=
   ⟨by decide, by decide, by decide⟩
 
+/-- both branches of the instance, from its run inside `HOK` -/
+theorem exBranches : BranchOK exE [exG, exB1] [exB2] ∧ NewOK exE [exG, exB1] [exB2x] :=
+  trace_branches exV exHInvCV exBestV exTraceD exTraceC [exG, exB1] [exB2] exChainV rfl exDomainV
+
 /-- the conclusion of `trace_refines_res` on the instance: `NotifyDom` is derived, not assumed -/
 theorem exRefinesRes :
     NotifyDom exE.env [exG, exB1] [exB2] [exB2x] exV.sp.pend ∧
